@@ -6,6 +6,18 @@ ids = [json.loads(l)["id"] for l in open(os.path.join(VERIF, "properties.jsonl")
 HOOK_COMMITS = ["424bc8f"]
 
 CLAIMED = {
+ "C09": dict(category="proof", design="DESIGN.md §6 C09",
+   text="Structural hiding statement, proved in Coq for all programs/witnesses/draw streams: every emitted component is (witness part) + (its own transcript-RNG draw).B~ with the draw index given explicitly (C09_blinding_layout: A_I1,A_O1,S1,(A_I2,A_O2,S2),T_1..T_6, masking vectors), the draw indices used are exactly 0..ndraws-1 each once (C09_draws_used_exactly_once), a component determines its blinding when B~ <> 0 (C09_component_injective), and what is statement-fixed (identity second-phase points without second-phase gates; t_x = 0, a = 0, b = -1 for gate-free circuits). PARTIAL w.r.t. the property's indistinguishability reading: simulation-based zero knowledge is not formalised. Correspondence: every honest case is re-derived by the model from witness + RECORDED RNG draws (full algebraic opening of every commitment via MSM over real generators); rngdet stream checks keying on the real code (same seed => identical bytes; other seed or other commitment blindings => no shared component).",
+   note="Trusted: Coq kernel; model tie as C01; TranscriptRng = arbitrary stream in the theorems. Not formalised: zero-knowledge simulation, STROBE keying (exercised, not proved).",
+   technique="machine-checked proof in Coq (component forms + index bijection) + differential correspondence with recorded RNG draws"),
+ "C13": dict(category="proof", design="DESIGN.md §6 C13",
+   text="Coq theorems for all scalars of any field, any bases, any F-module: commit v r = v.B + r.B~ (definitional), additive homomorphism, commit(0,0) = identity, scaling, negation (C13_homomorphic_zero_scale), and the prover's commit returns exactly this point, absorbs it under label V and issues the next Committed index, as does the verifier's (C13_prover_commit). Correspondence K9: PedersenGens::commit and Prover::commit against an independent arkworks path and the model's coefficient vector on edge values (0,1,-1,2^64+-1,2^128,-2^64,...) with default and random bases on 3 curves.",
+   note="Trusted: Coq kernel; arkworks group is an F_r-module under mul_bigint(into_bigint(.)) (dependency; sampled by K9).",
+   technique="machine-checked proof in Coq (module identities by the extension-ring tactic) + differential correspondence"),
+ "C17": dict(category="proof", design="DESIGN.md §6 C17",
+   text="Coq theorems on the model of prove / verification_scalars: InvalidGeneratorsLength is returned exactly when capacity < next_power_of_two(total gates) (zero gates count as one), before the closures if capacity < first-phase gates, after them otherwise, with closure errors taking precedence (C17_prover_threshold, C17_verifier_threshold); with capacity at or above the threshold proving succeeds, and proof and verdict are independent of the capacity because only the first n' generators are read (C17_capacity_independent). Correspondence/search: exhaustive grid of (first-phase gates, second-phase gates, prover capacity, verifier capacity) on the real code of 3 curves (error kind, no panic under catch_unwind, byte-identical proofs across capacities with replayed RNG), boundary cases also through the model.",
+   note="Trusted: Coq kernel; model tie; gens_capacity = length of the generator vectors. Absence of panics in the prover is checked on the grid (bounded), in the verifier by the shape model of C08.",
+   technique="machine-checked proof in Coq (case analysis on the model's control flow; prefix-only use of generators) + exhaustive grid on the implementation"),
  "C01": dict(category="proof", design="DESIGN.md §6 C01",
    text="Coq theorem C01_completeness over an abstract field and F-module (every prime-order group): for every program (interaction trees, all call kinds, closures depending on challenges), every RNG stream, every pair of generator lists agreeing on the first n' entries with capacities >= n' on either side, if the final assignment satisfies all constraints and gates then the proof emitted by the model of prove_and_return_transcript is accepted by the model of verify — under NZ (inverted challenges non-zero) and non-identity of the mandatory points. Proved from roles_in_sync (transcripts equal through phase switch and IPP), mega_decomp, P_identity, t2 identity, flatten soundness, IPP completeness. Covers n = 0, 1, non-powers of two, n1 = 0 < n2. The model is tied to the code on every run by K1/K3/K4/K6: events, all proof scalars, every proof point re-materialised by MSM of the model's coefficient vector over the real generators, the verifier's scalar vector, both transcripts, verdicts, on 3 curves.",
    note="Trusted: Coq kernel; hand-written model of prover.rs/verifier.rs/inner_product_proof.rs/transcript.rs (tied each run); field/module laws for arkworks groups; Merlin/ChaCha/rand as an oracle of the operation history; prover RNG as an arbitrary stream.",
